@@ -148,6 +148,7 @@ Section Response.
   Hypothesis Hshape : ho_shape_ok.
   Hypothesis Hconn : connect_ok_literal = b "HTTP/1.1 200 OK" ++ crlf ++ crlf.
   Hypothesis Hreframe : wr_frames_unknown_length = true.
+  Hypothesis Hwerr : wr_write_error_closes = true.
 
   (* the framing a surviving / a closing connection gets *)
   Lemma go_framing closing q r order :
@@ -240,7 +241,7 @@ Section Response.
     - rewrite (kind_connect q _ (eq_trans Hcp eq_refl)). cbn [concat]. rewrite app_nil_r.
       rewrite (connect_ok_method q r Hco). apply connect_roundtrip, Hconn.
     - destruct Hs as [Hs | Hs]; [|discriminate].
-      unfold conn_survives in Hs. apply andb_true_iff in Hs as [Hs _]. apply andb_true_iff in Hs as [Hok Hcl].
+      unfold conn_survives in Hs. rewrite Hwerr in Hs. apply andb_true_iff in Hs as [Hs _]. apply andb_true_iff in Hs as [Hok Hcl].
       apply negb_true_iff in Hcl. unfold write_ok in Hok. cbv zeta in Hok.
       destruct (prepare_inv closing q r) as (H1 & H2 & H3 & H4 & _).
       unfold writer_kind in *. rewrite Hcp in *.
@@ -325,6 +326,7 @@ Section Connection.
   Hypothesis Hshape : ho_shape_ok.
   Hypothesis Hconn : connect_ok_literal = b "HTTP/1.1 200 OK" ++ crlf ++ crlf.
   Hypothesis Hreframe : wr_frames_unknown_length = true.
+  Hypothesis Hwerr : wr_write_error_closes = true.
 
   Theorem kth_answers_kth v11 xs :
     Forall (x_ok v11) xs ->
@@ -336,7 +338,7 @@ Section Connection.
     unfold conn_wire. cbn [served map concat client_parse_seq].
     destruct (x_survives x) eqn:Es.
     - fold (conn_wire rest). unfold x_wire at 1.
-      rewrite (roundtrip Hho Hshape Hconn Hreframe _ _ _ _ (conn_wire rest) Hwf (or_introl Es)).
+      rewrite (roundtrip Hho Hshape Hconn Hreframe Hwerr _ _ _ _ (conn_wire rest) Hwf (or_introl Es)).
       rewrite (IH Hrest). reflexivity.
     - cbn [map concat]. rewrite app_nil_r. unfold x_wire.
       rewrite (roundtrip_close Hho Hshape Hreframe _ _ _ _ Hwf Hok Es Hco). reflexivity.
@@ -366,11 +368,17 @@ Qed.
 (* the connection is kept iff nothing asked to close it, the write succeeded, and the body
    did not have to be delimited by the end of the connection *)
 Theorem survives_iff closing q r :
-  conn_survives closing q r = true <->
-  write_ok closing q r = true /\ r_close (prepare closing q r) = false /\ is_connect_ok q r = false.
+  wr_write_error_closes = true ->
+  (conn_survives closing q r = true <->
+   write_ok closing q r = true /\ r_close (prepare closing q r) = false /\ is_connect_ok q r = false).
 Proof.
-  unfold conn_survives. rewrite !andb_true_iff, !negb_true_iff. tauto.
+  intro H. unfold conn_survives. rewrite H, !andb_true_iff, !negb_true_iff. tauto.
 Qed.
+
+Theorem failed_write_closes :
+  wr_write_error_closes = true ->
+  forall closing q r, write_ok closing q r = false -> conn_survives closing q r = false.
+Proof. intros H closing q r Hw. unfold conn_survives. rewrite H, Hw. reflexivity. Qed.
 
 (* ------------------------------------------------------------------ a concrete connection (non-vacuity) *)
 Definition example_xs : list exchange :=
